@@ -187,7 +187,8 @@ def methodsOfOp (op : String) : List (String × Bool) :=
   else if op == "gtag" then [("GetObjectTagging", false)] else if op == "ptag" then [("PutObjectTagging", false)]
   else if op == "dtag" then [("DeleteObjectTagging", false)]
   else if op == "trans" then [("TransitionObjectStorageClass", false)]
-  else if op == "ls" then [("ListObjects", false)] else if op == "lsv" then [("ListObjectVersions", false)]
+  else if op == "ls" || op == "lsp" then [("ListObjects", false)]
+  else if op == "lsv" || op == "lsvp" then [("ListObjectVersions", false)]
   else if op == "lsb" then [("ListBuckets", false)] else []
 
 /-- The object/bucket methods whose error kinds the history language can observe. -/
